@@ -25,6 +25,31 @@ thread_local! {
     pub static SHIM: RefCell<ShimState> = RefCell::new(ShimState::default());
 }
 
+type YieldHook = Box<dyn FnMut(&'static str)>;
+thread_local! {
+    static YIELD: RefCell<Option<YieldHook>> = RefCell::new(None);
+}
+
+/// Install (or remove) this thread's preemption hook. The seams at which the library calls out of
+/// itself - the caller's RNG, the AEAD primitive of a shimmed suite - are the simulator's scheduling
+/// points *inside* a library call: the hook may run operations of other sessions (on other threads
+/// or re-entrantly on this one) before the call continues.
+pub fn set_yield_hook(h: Option<YieldHook>) {
+    YIELD.with(|y| *y.borrow_mut() = h);
+}
+
+pub fn seam_yield(site: &'static str) {
+    // the hook is taken out while it runs: operations nested inside it do not yield again
+    let h = YIELD.with(|y| y.borrow_mut().take());
+    if let Some(mut h) = h {
+        // the shim's own bookkeeping belongs to the operation that is suspended here
+        let saved = SHIM.with(|s| std::mem::take(&mut *s.borrow_mut()));
+        h(site);
+        SHIM.with(|s| *s.borrow_mut() = saved);
+        YIELD.with(|y| *y.borrow_mut() = Some(h));
+    }
+}
+
 pub fn take_log() -> Vec<ShimOp> {
     SHIM.with(|s| std::mem::take(&mut s.borrow_mut().log))
 }
@@ -75,6 +100,7 @@ impl<C: AeadInPlace> AeadInPlace for ShimImpl<C> {
         associated_data: &[u8],
         buffer: &mut [u8],
     ) -> aead::Result<Tag<Self>> {
+        seam_yield("aead_encrypt");
         let fail = SHIM.with(|s| {
             let mut s = s.borrow_mut();
             let fail = std::mem::replace(&mut s.fail_next_encrypt, false);
@@ -101,6 +127,7 @@ impl<C: AeadInPlace> AeadInPlace for ShimImpl<C> {
         buffer: &mut [u8],
         tag: &Tag<Self>,
     ) -> aead::Result<()> {
+        seam_yield("aead_decrypt");
         let r = self.0.decrypt_in_place_detached(nonce, associated_data, buffer, tag);
         SHIM.with(|s| {
             let mut s = s.borrow_mut();
@@ -169,19 +196,25 @@ impl ScriptRng {
 
 impl RngCore for ScriptRng {
     fn next_u32(&mut self) -> u32 {
+        seam_yield("rng");
         let mut b = [0u8; 4];
         self.take(&mut b);
         self.draws.push(Draw::U32);
         u32::from_le_bytes(b)
     }
     fn next_u64(&mut self) -> u64 {
+        seam_yield("rng");
         let mut b = [0u8; 8];
         self.take(&mut b);
         self.draws.push(Draw::U64);
         u64::from_le_bytes(b)
     }
     fn fill_bytes(&mut self, dst: &mut [u8]) {
-        self.take(dst);
+        // preemption point in the middle of the draw: half the bytes are out when others run
+        let h = dst.len() / 2;
+        self.take(&mut dst[..h]);
+        seam_yield("rng");
+        self.take(&mut dst[h..]);
         self.draws.push(Draw::Fill(dst.len()));
     }
 }
